@@ -9,7 +9,7 @@
       C10_sign / abs / roundings   sgn(0) = 0 and +-1 otherwise (NaN for NaN), |x|, floor ceil trunc round
                                    (ties away) are exact; C10_factorial_exact: n! in eval_i64 / eval_number
       C10_degree_constants         the constants of the postfix ° and rad are within 1e-17 / 2e-11 (3.1e-13 relative) of pi/180, 180/pi
-                                   (Coq-Interval); pi and e are the std constants (nearest doubles)
+                                   (Coq-Interval); C10_pi_e_nearest: pi and e are within half a unit in the last place of PI and exp 1
     Partial: that libm, num_complex, rust_decimal, the Lanczos gamma and the Lambert-W iteration are
     within 1e-9 of the mathematical function is numerical analysis of code outside this development;
     it is tested against independent references on every run (exploration-level support), and the
@@ -111,3 +111,29 @@ Proof.
   - interval with (i_prec 90).
 Qed.
 Print Assumptions C10_degree_constants.
+
+(** pi and e: the constants handed out by every f64-based evaluator are the doubles nearest to the mathematical
+    constants (within half a unit in the last place, 2^-52) *)
+Lemma pi_value : @B2R 53 1024 f_pi = (7074237752028440 / 2251799813685248)%R.
+Proof.
+  rewrite <- SF2R_B2SF.
+  replace (B2SF f_pi) with (SpecFloat.S754_finite false 7074237752028440 (-51)) by (vm_compute; reflexivity).
+  unfold SF2R, F2R. simpl. lra.
+Qed.
+Lemma e_value : @B2R 53 1024 f_e = (6121026514868073 / 2251799813685248)%R.
+Proof.
+  rewrite <- SF2R_B2SF.
+  replace (B2SF f_e) with (SpecFloat.S754_finite false 6121026514868073 (-51)) by (vm_compute; reflexivity).
+  unfold SF2R, F2R. simpl. lra.
+Qed.
+Theorem C10_pi_e_nearest :
+  pt_const pt_f64 KPi = Some f_pi /\ pt_const pt_f64 KE = Some f_e /\
+  (Rabs (@B2R 53 1024 f_pi - PI) <= 1 / 4503599627370496)%R /\
+  (Rabs (@B2R 53 1024 f_e - exp 1) <= 1 / 4503599627370496)%R.
+Proof.
+  split; [vm_compute; reflexivity|]. split; [vm_compute; reflexivity|]. split.
+  - rewrite pi_value. interval with (i_prec 120).
+  - rewrite e_value. interval with (i_prec 120).
+Qed.
+Print Assumptions C10_pi_e_nearest.
+
